@@ -289,6 +289,10 @@ setup_table(vh_rng *rg, int allow_fail, int all_writable)
     struct rt_desc d;
     do {
         rt_gen_wellformed(rg, &d, allow_fail);
+#ifdef VH_FUZZ
+        if (d.nregs == 0)
+            return 0; /* the choice stream may be used up: no second attempt */
+#endif
     } while (d.nregs == 0);
     if (all_writable)
         for (int a = 0; a < d.nareas; a++)
@@ -307,11 +311,21 @@ setup_table(vh_rng *rg, int allow_fail, int all_writable)
 }
 
 static void
+history_body(uint64_t idx, vh_rng *rgp);
+
+static void
 u_history(uint64_t idx, void *arg)
 {
     (void)arg;
     vh_rng rg;
     vh_unit_rng(&rg, "history", idx);
+    history_body(idx, &rg);
+}
+
+static void
+history_body(uint64_t idx, vh_rng *rgp)
+{
+    vh_rng rg = *rgp;
     int allow_fail = (int)(idx & 1);
     if (!setup_table(&rg, allow_fail, 0))
         return;
@@ -320,6 +334,10 @@ u_history(uint64_t idx, void *arg)
     observe("initial", ctx0);
     unsigned len = 50 + (unsigned)vh_below(&rg, 351);
     for (unsigned s = 0; s < len; s++) {
+#ifdef VH_FUZZ
+        if (vh_rng_stream_left() == 0)
+            break;
+#endif
         VH_CASE4(idx, s, 0, 0);
         unsigned x = (unsigned)vh_below(&rg, 100);
         char c[32];
@@ -345,17 +363,31 @@ u_history(uint64_t idx, void *arg)
 }
 
 static void
+corrupt_body(uint64_t idx, vh_rng *rgp);
+
+static void
 u_corrupt(uint64_t idx, void *arg)
 {
     (void)arg;
     vh_rng rg;
     vh_unit_rng(&rg, "corrupt", idx);
+    corrupt_body(idx, &rg);
+}
+
+static void
+corrupt_body(uint64_t idx, vh_rng *rgp)
+{
+    vh_rng rg = *rgp;
     if (!setup_table(&rg, 0, 1))
         return;
     char ctx0[200];
     snprintf(ctx0, sizeof ctx0, "table{%.150s}", rt_describe(&inst.d));
     const struct rt_desc *d = &inst.d;
     for (unsigned round = 0; round < 40; round++) {
+#ifdef VH_FUZZ
+        if (vh_rng_stream_left() == 0)
+            break;
+#endif
         VH_CASE4(idx, round, 0, 0);
         /* touch something first so that the marks have something to lose */
         if (vh_chance(&rg, 1, 2))
